@@ -59,6 +59,9 @@ type cloneCase struct {
 	// SameFilter: every handler of the mux is registered under the identical filter string (the model knows handlers,
 	// not filters: the demands are the same)
 	SameFilter bool `json:"sameFilter,omitempty"`
+	// QRot: the real QoS values are the model's rotated by this much (mod 3): with 2, the first message is a QoS 0 message
+	// and the second a QoS 1 message (the model's mutation "qos" is a rotation too, so the demands are the same)
+	QRot int `json:"qrot,omitempty"`
 }
 
 type cloneView struct {
@@ -90,8 +93,8 @@ type cloneResult struct {
 
 var cloneFilters = []string{"#", "t/#", "t/+"}
 
-func cloneSnapshot(m *mqtt.Message, scale int) cloneView {
-	v := cloneView{Topic: string([]byte(m.Topic)), ID: int(m.ID), QoS: int(m.QoS), Retain: m.Retain, Dup: m.Dup, Payload: []int{}}
+func cloneSnapshot(m *mqtt.Message, scale, rot int) cloneView {
+	v := cloneView{Topic: string([]byte(m.Topic)), ID: int(m.ID), QoS: (int(m.QoS) - rot + 3) % 3, Retain: m.Retain, Dup: m.Dup, Payload: []int{}}
 	p := m.Payload
 	for o := 0; o < len(p); o += scale {
 		if o+scale > len(p) {
@@ -165,14 +168,14 @@ func cloneMutate(m *mqtt.Message, kind string, i, scale int) {
 }
 
 // the caller re-using its message and buffer for the next message (CallerMutate in Clone.tla)
-func cloneCallerMutate(m *mqtt.Message, scale int) {
+func cloneCallerMutate(m *mqtt.Message, scale, rot int) {
 	cloneFill(m, 100, scale)
 	if cap(m.Payload)-len(m.Payload) >= scale {
 		m.Payload = append(m.Payload, cloneBlock(77, scale)...)
 	}
 	m.Topic = "t/b"
 	m.ID = 9
-	m.QoS = mqtt.QoS2
+	m.QoS = mqtt.QoS((2 + rot) % 3)
 	m.Retain = false
 	m.Dup = false
 }
@@ -185,8 +188,8 @@ func cloneBuild(vals []int, capacity, scale int) []byte {
 	return p
 }
 
-func cloneMsg1(pay string, scale int) *mqtt.Message {
-	m := &mqtt.Message{Topic: "t/a", ID: 7, QoS: mqtt.QoS1, Retain: true, Dup: true}
+func cloneMsg1(pay string, scale, rot int) *mqtt.Message {
+	m := &mqtt.Message{Topic: "t/a", ID: 7, QoS: mqtt.QoS((1 + rot) % 3), Retain: true, Dup: true}
 	switch pay {
 	case "nil":
 		m.Payload = nil
@@ -202,8 +205,8 @@ func cloneMsg1(pay string, scale int) *mqtt.Message {
 	return m
 }
 
-func cloneMsg2(scale int) *mqtt.Message {
-	return &mqtt.Message{Topic: "t/b", ID: 9, QoS: mqtt.QoS2, Retain: true, Dup: false, Payload: cloneBuild([]int{11, 12}, 2, scale)}
+func cloneMsg2(scale, rot int) *mqtt.Message {
+	return &mqtt.Message{Topic: "t/b", ID: 9, QoS: mqtt.QoS((2 + rot) % 3), Retain: true, Dup: false, Payload: cloneBuild([]int{11, 12}, 2, scale)}
 }
 
 func runCloneCase(raw json.RawMessage) interface{} {
@@ -234,7 +237,7 @@ func runCloneCase(raw json.RawMessage) interface{} {
 
 	body := func(i int, m *mqtt.Message) {
 		<-gates[i]
-		v := cloneSnapshot(m, scale)
+		v := cloneSnapshot(m, scale, c.QRot)
 		cloneMutate(m, c.Cs.Hs[i-1].Mut, i, scale)
 		held = append(held, m)
 		done <- v
@@ -286,9 +289,9 @@ func runCloneCase(raw json.RawMessage) interface{} {
 		return res
 	}
 
-	cm := []*mqtt.Message{cloneMsg1(c.Cs.Pay, scale)}
+	cm := []*mqtt.Message{cloneMsg1(c.Cs.Pay, scale, c.QRot)}
 	if c.Cs.Mode == "fresh" {
-		cm = append(cm, cloneMsg2(scale))
+		cm = append(cm, cloneMsg2(scale, c.QRot))
 	}
 	served := func(r int) *mqtt.Message {
 		if c.Cs.Mode == "fresh" && r == 2 {
@@ -299,7 +302,7 @@ func runCloneCase(raw json.RawMessage) interface{} {
 	callerViews := func() []cloneView {
 		out := make([]cloneView, 0, len(cm))
 		for _, m := range cm {
-			out = append(out, cloneSnapshot(m, scale))
+			out = append(out, cloneSnapshot(m, scale, c.QRot))
 		}
 		return out
 	}
@@ -341,12 +344,12 @@ func runCloneCase(raw json.RawMessage) interface{} {
 			v := <-done
 			res.Ev = append(res.Ev, cloneOut{E: "h", H: ev.H, View: &v})
 		case "cmut":
-			cloneCallerMutate(cm[0], scale)
+			cloneCallerMutate(cm[0], scale, c.QRot)
 			res.Ev = append(res.Ev, cloneOut{E: "cmut", Cv: callerViews()})
 		case "fin":
 			hv := make([]cloneView, 0, len(held))
 			for _, m := range held {
-				hv = append(hv, cloneSnapshot(m, scale))
+				hv = append(hv, cloneSnapshot(m, scale, c.QRot))
 			}
 			res.Ev = append(res.Ev, cloneOut{E: "fin", Cv: callerViews(), Hv: &hv})
 		default:
